@@ -10,6 +10,7 @@ import (
 	"encoding/json"
 	"fmt"
 	"go/ast"
+	"go/format"
 	"go/parser"
 	"go/token"
 	"os"
@@ -45,6 +46,7 @@ type GenResult struct {
 	Dir      string
 	SpecPath string
 	Broken   string // set when the package did not compile
+	Fmt      string // set when a written file does not parse or is not gofmt-stable
 }
 
 var goagMu sync.Mutex
@@ -81,7 +83,30 @@ func runGoag(work string, s GenSpec) (res GenResult) {
 		return res
 	}
 	res.Outcome = "ok"
+	res.Fmt = fmtIssues(res.Dir)
 	return res
+}
+
+// fmtIssues: every written file must parse and be gofmt-stable (format.Source is the identity on it).
+func fmtIssues(dir string) string {
+	ents, _ := os.ReadDir(dir)
+	for _, e := range ents {
+		if e.IsDir() || !strings.HasSuffix(e.Name(), ".go") {
+			continue
+		}
+		src, err := os.ReadFile(filepath.Join(dir, e.Name()))
+		if err != nil {
+			continue
+		}
+		out, err := format.Source(src)
+		if err != nil {
+			return e.Name() + ": does not parse: " + firstLine(err.Error())
+		}
+		if !bytes.Equal(out, src) {
+			return e.Name() + ": not gofmt-stable"
+		}
+	}
+	return ""
 }
 
 // runGoagDir runs the generator on a spec into an explicit output directory (C19 histories).
@@ -289,4 +314,11 @@ func tail(s string, n int) string {
 		return s[len(s)-n:]
 	}
 	return s
+}
+
+func brokenOrFmt(r GenResult) string {
+	if r.Broken != "" {
+		return r.Broken
+	}
+	return r.Fmt
 }
